@@ -177,6 +177,9 @@ pub fn install_panic_hook() {
         } else {
             "<non-string panic>".to_string()
         };
+        if std::env::var("CAOVERIF_VERBOSE_PANIC").is_ok() {
+            eprintln!("PANIC at {loc}: {msg}\n{}", std::backtrace::Backtrace::force_capture());
+        }
         LAST_PANIC.with(|p| *p.borrow_mut() = Some((loc, msg)));
     }));
 }
